@@ -78,6 +78,7 @@ type Case struct {
 	DstPlans        []DstPlan
 	LongQuota       int   // a long quota outage: the first LongQuotaStarts distinct batch starts the destination sees are
 	LongQuotaStarts int   // answered ResourceExhausted LongQuota times each before their plan applies (20-45 replies: 20 min - 1.5 h of back-off)
+	SQLStatuses     bool  // per-leaf statuses as Trillian's SQL storages give them: FailedPrecondition ("conflicting LeafIndex" / "conflicting LeafIdentityHash") for a leaf that is stored already, identical or not
 	DstLatMs        int64 // AddSequencedLeaves for a batch starting at s takes (s % 3) * DstLatMs
 	IntegrateMask   uint  // bit n%16: the sequencer integrates just before the n-th GetLatestSignedLogRoot
 
@@ -437,8 +438,17 @@ func genCase(t *rapid.T, elect bool) Case {
 	if c.DstKind == dstPrefix && weighted(t, "dstNear", 2, 1) == 1 {
 		c.DstLen = first - rapid.IntRange(0, 3).Draw(t, "dstBack")
 	}
-	if c.DstKind == dstFork && weighted(t, "forkSmall", 2, 1) == 1 {
-		c.DstLen = rapid.IntRange(0, 2).Draw(t, "forkLen") // destinations of 1-3 entries
+	if c.DstKind == dstFork {
+		switch weighted(t, "forkSize", 5, 3, 3) {
+		case 1:
+			c.DstLen = rapid.IntRange(0, 2).Draw(t, "forkLen") // destinations of 1-3 entries
+		case 2:
+			// as large as the first head of the source, or 1-2 entries ahead of it (normalise adds one)
+			c.DstLen = first - 1 + rapid.IntRange(0, 2).Draw(t, "forkFull")
+			if c.DstLen < 0 {
+				c.DstLen = 0
+			}
+		}
 	}
 	c.ForkAt = rapid.IntRange(0, mx+2).Draw(t, "forkAt")
 	nDP := rapid.IntRange(1, 4).Draw(t, "nDstPlans")
@@ -457,6 +467,7 @@ func genCase(t *rapid.T, elect bool) Case {
 		}
 		c.DstPlans = append(c.DstPlans, p)
 	}
+	c.SQLStatuses = weighted(t, "sqlStatuses", 1, 2) == 1
 	if weighted(t, "longQuota", 11, 1) == 1 {
 		c.LongQuota = rapid.IntRange(20, 45).Draw(t, "longQuotaN")
 		c.LongQuotaStarts = rapid.IntRange(1, 3).Draw(t, "longQuotaStarts")
